@@ -2,6 +2,7 @@ import Std.Data.HashMap
 import Driver.Common
 import Driver.OpsAnalysis
 import Driver.OpsAnalysisWindow
+import Driver.OpsBSparse
 import Driver.OpsBatch
 import Driver.OpsBits
 import Driver.OpsCli
@@ -36,6 +37,7 @@ import Driver.OpsSim
 import Driver.OpsSplitting
 import Driver.OpsSweep
 import Driver.OpsUnionFind
+import Driver.OpsUtilsPure
 import Driver.OpsXCube
 open Panqec
 
@@ -44,7 +46,7 @@ open Panqec
     (`none` = not my op); the first that answers wins. -/
 
 def handlers : List (List String → Option String) :=
-  [Drv.handleAnalysis, Drv.handleAnalysisWindow, Drv.handleBatch, Drv.handleBits, Drv.handleCli, Drv.handleCode, Drv.handleDecoders, Drv.handleDeform, Drv.handleDist, Drv.handleGui, Drv.handleGuiRepr, Drv.handleGuiRoutes, Drv.handleLatColor3DCode, Drv.handleLatColor488Code, Drv.handleLatColor666PlanarCode, Drv.handleLatColor666ToricCode, Drv.handleLatHollowPlanar3DCode, Drv.handleLatHollowRhombicCode, Drv.handleLatPlanar2DCode, Drv.handleLatPlanar3DCode, Drv.handleLatRhombicPlanarCode, Drv.handleLatRhombicToricCode, Drv.handleLatRotatedPlanar2DCode, Drv.handleLatRotatedPlanar3DCode, Drv.handleLatRotatedToric3DCode, Drv.handleLatToric2DCode, Drv.handleLatToric3DCode, Drv.handleLatXCubeCode, Drv.handleMask, Drv.handleMbp, Drv.handleNoise, Drv.handleRunFile, Drv.handleSim, Drv.handleSplitting, Drv.handleSweep, Drv.handleUnionFind, Drv.handleXCube]
+  [Drv.handleAnalysis, Drv.handleAnalysisWindow, Drv.handleBSparse, Drv.handleBatch, Drv.handleBits, Drv.handleCli, Drv.handleCode, Drv.handleDecoders, Drv.handleDeform, Drv.handleDist, Drv.handleGui, Drv.handleGuiRepr, Drv.handleGuiRoutes, Drv.handleLatColor3DCode, Drv.handleLatColor488Code, Drv.handleLatColor666PlanarCode, Drv.handleLatColor666ToricCode, Drv.handleLatHollowPlanar3DCode, Drv.handleLatHollowRhombicCode, Drv.handleLatPlanar2DCode, Drv.handleLatPlanar3DCode, Drv.handleLatRhombicPlanarCode, Drv.handleLatRhombicToricCode, Drv.handleLatRotatedPlanar2DCode, Drv.handleLatRotatedPlanar3DCode, Drv.handleLatRotatedToric3DCode, Drv.handleLatToric2DCode, Drv.handleLatToric3DCode, Drv.handleLatXCubeCode, Drv.handleMask, Drv.handleMbp, Drv.handleNoise, Drv.handleRunFile, Drv.handleSim, Drv.handleSplitting, Drv.handleSweep, Drv.handleUnionFind, Drv.handleUtilsPure, Drv.handleXCube]
 
 def handleToks (toks : List String) : String :=
   match handlers.findSome? (fun h => h toks) with
